@@ -127,7 +127,9 @@ func (c *Collection) ExplainQuery(statement string, args map[string]any) (plan m
 func (c *Collection) prepareQuery(statement string, args map[string]any) (string, []any) {
 	// Replace `$_keyspace` with a sub-query matching documents in this collection:
 	statement = strings.Replace(statement, sgbucket.KeyspaceQueryToken, "_keyspace", -1)
-	statement = fmt.Sprintf(`WITH _keyspace as (SELECT key as id, value as body, xattrs
+	// (body and xattrs are stored as BLOBs; SQLite's JSON functions take a BLOB for binary JSONB when its first bytes
+	// happen to look like a JSONB header - e.g. any 8-byte object such as {"ab":1} - so hand them over as text)
+	statement = fmt.Sprintf(`WITH _keyspace as (SELECT key as id, CAST(value AS TEXT) as body, CAST(xattrs AS TEXT) as xattrs
 							 FROM documents WHERE collection=%d AND value NOT NULL) %s`,
 		c.id, statement)
 	// Convert the args to an array of sql.NamedArg values:
